@@ -112,3 +112,7 @@ def run(F, rep, tier):
     c16_loop_carried_args(F, rep)
     from rules.loopshape import c16_pattern_value_pairing
     c16_pattern_value_pairing(F, rep)
+    from rules.loopshape import trial_env_fresh
+    trial_env_fresh(F, rep, "C16-R8", {"match_expression", "match_validate_arm_kinds", "execute_function_match_arms"}, 3)
+    from rules.loopshape import c16_catch_all_predicate
+    c16_catch_all_predicate(F, rep)
